@@ -410,7 +410,16 @@ func c13Schedules(r *ev.Result, w *c13World, set []c13Call, checkDefaults func(s
 			if step < len(prefix) {
 				ch = prefix[step]
 				if ch >= len(en) {
-					ev.Broken("c13: schedule prefix out of range")
+					if r.NViolations() > 0 {
+						/* Calls already influence each other (that is
+						what was reported): later executions differ
+						from the one this prefix was taken from. */
+						r.Exhaustive = false
+						r.Set("schedule_exploration_cut_short", "executions are not independent of earlier ones")
+						ch = 0
+					} else {
+						ev.Broken("c13: schedule prefix out of range")
+					}
 				}
 			}
 			choices = append(choices, ch)
